@@ -62,7 +62,7 @@ def units(tier, seed):
     u.append({'k': 'nested'})
     for i in range(10 if tier == 'quick' else 200):
         u.append({'k': 'loop', 'i': i})
-    for i in range(9 if tier == 'quick' else 90):
+    for i in range(12 if tier == 'quick' else 120):
         u.append({'k': 'structural', 'i': i})
     # trees an order of magnitude larger and three times deeper, many offenders
     for i in range(6 if tier == 'quick' else 300):
@@ -531,7 +531,17 @@ def exec_structural_cli(ctx, what, order, walk_seed):
             os.makedirs(tgt, exist_ok=True)
             with open(os.path.join(tgt, 'g'), 'w') as f:
                 f.write('g')
-            os.symlink(tgt, os.path.join(bad, 'sub', 'far'))
+            if what == 'xdev-hidden':
+                # the foreign directory hangs under a hidden name, which the walk does
+                # not enter; a (matching) listed file inside it is verified all the
+                # same - and lies on another file system
+                os.symlink(tgt, os.path.join(bad, 'sub', '.far'))
+                with open(os.path.join(bad, 'Manifest'), 'a') as f:
+                    f.write(mtext.render([mtext.file_entry('DATA', 'sub/.far/g', b'g',
+                                                           ['SHA1'])]))
+                ctx.count('structural_xdev_hidden_runs')
+            else:
+                os.symlink(tgt, os.path.join(bad, 'sub', 'far'))
             extra = ['-x']
         try:
             case = {'kind': 'structural', 'what': what, 'order': order,
@@ -559,13 +569,14 @@ def exec_structural_cli(ctx, what, order, walk_seed):
                                            ManifestSymlinkLoop)
             from gemato.recursiveloader import ManifestRecursiveLoader
             want = {'loop': ManifestSymlinkLoop, 'incompatible': ManifestIncompatibleEntry,
-                    'xdev': ManifestCrossDevice}[what]
-            if what != 'xdev' or extra:
+                    'xdev': ManifestCrossDevice, 'xdev-hidden': ManifestCrossDevice}[what]
+            if not what.startswith('xdev') or extra:
                 try:
                     with walkperm.WalkPermuter(walk_seed + 1, budget=2000):
                         m = ManifestRecursiveLoader(os.path.join(bad, 'Manifest'),
                                                     verify_openpgp=False,
-                                                    allow_xdev=(what != 'xdev'))
+                                                    allow_xdev=not what.startswith(
+                                                        'xdev'))
                         r = m.assert_directory_verifies('', fail_handler=lambda e: True)
                     ctx.violation('structural-problem-not-raised:' + what, 'with a handler '
                                   'that tolerates every report the verification of a tree '
@@ -584,14 +595,14 @@ def exec_structural_cli(ctx, what, order, walk_seed):
                                   ' -x' if extra else '', ' '.join(
                                       os.path.basename(p) for p in paths), what), case)
         finally:
-            if what == 'xdev' and extra:
+            if what.startswith('xdev') and extra:
                 common.rmtree(tgt)
 
 
 def run_structural(u, ctx):
     rng = common.rng_for(ctx.seed, ID, 'structural', u['i'])
-    exec_structural_cli(ctx, ['loop', 'incompatible', 'xdev'][u['i'] % 3],
-                        ['alone', 'first', 'last'][(u['i'] // 3) % 3],
+    exec_structural_cli(ctx, ['loop', 'incompatible', 'xdev', 'xdev-hidden'][u['i'] % 4],
+                        ['alone', 'first', 'last'][(u['i'] // 4) % 3],
                         rng.randrange(1 << 30))
 
 
